@@ -362,3 +362,29 @@ ghost_after('GroupInput.give_part', '<entry>', g_k='0')
 contract('GroupInput.give_part', props=['C08'], for_cls=['GroupInput'], args={'part': 'ref:Part'}, result='bool',
          requires={'part_alive': 'part is None or alive(part)'},
          ensures=pass_through_clauses('old(trace_len())', False), modifies=['$trace'])
+
+# --------------------------------------------------------------------------- aggregate idle stamp of a pass-through device
+# PartFlowController.waiting_for_part_start_time: the earliest stamp among the direct downstream devices (None = not
+# waiting is skipped, a stamp of 0 counts), None when no downstream waits or while the recursion guard is set.
+DS_W = 'wait_since(self._downstream[j])'
+contract('PartFlowController.waiting_for_part_start_time', props=['C08'], for_cls=['PartFlowController', 'DecisionGate'],
+         args={}, result='real?', invariants=False,
+         requires={'downstream_exists': 'self._downstream is not None and alive(self._downstream) and '
+                                        'all(d is not None and alive(d) and d is not self for d in self._downstream)'},
+         ensures={
+             'guarded_against_cycles': 'implies(old(self._recursion_prevention), isnone(result)) and '
+                                       'self._recursion_prevention == old(self._recursion_prevention)',
+             'none_iff_no_downstream_waits':
+                 'implies(not old(self._recursion_prevention), '
+                 f'        isnone(result) == all(isnone({DS_W}) for j in range(len(self._downstream))))',
+             'earliest_stamp_of_the_waiting_downstreams_zero_included':
+                 'implies(not old(self._recursion_prevention) and not isnone(result), '
+                 f'        all(implies(not isnone({DS_W}), result <= {DS_W}) for j in range(len(self._downstream))))',
+         },
+         modifies=['self._recursion_prevention'])
+loop('PartFlowController.waiting_for_part_start_time', 1, 'for d in self._downstream',
+     {'running_minimum':
+          f'all(implies(not isnone({DS_W}), min_wait_start <= {DS_W}) for j in range(k)) and '
+          f'(min_wait_start == float("inf")) == all(isnone({DS_W}) for j in range(k))',
+      'guard_set': 'self._recursion_prevention'},
+     modifies=[], index='k')
